@@ -82,6 +82,13 @@ CLAIMS = {
         note=A1 + 'ASSUMED callee contracts: content_factor (a*f integer-valued on integer points), evaluate_bound (enclosure), get_kinds, used ids, defined_ids, f64*Function and Function+Linear (pure, value up to an explicit remainder); A3: as_integer_bound returns (it panics on an interval without an integer). Preconditions (observations): no id overflow, oneofs set. Defect D2 (equality constraints accepted) found by this check and repaired in /repo.',
         technique='contract-based deductive verification (Verus) of mechanically extracted Rust functions (prophecy-style &mut contracts) + arithmetic ghost lemmas',
         ref='DESIGN 6 C13'),
+    'C08': dict(
+        text='Deductive proof (Verus) of the real text of (A) Instance::validate / validate_decision_variable_ids / validate_constraint_ids / used_decision_variable_ids / defined_ids and ParametricInstance::validate* - each succeeds EXACTLY when the ids are (jointly) unique and every used id is defined - '
+             'and (B) the whole typed parse layer: trait Parse with its default method parse_as, the Parse impls for Kind, Equality, Sense, Function, Bound, DecisionVariable, Vec<DecisionVariable>, Constraint, RemovedConstraint, Vec<Constraint>, Vec<RemovedConstraint>, OneHot, Sos1, ConstraintHints, as_variable_id/as_constraint_id and TryFrom<v1::Instance>: '
+             'each parse succeeds exactly when its rule holds, the typed value carries the same content (unset bound = unbounded, [0,1] for binaries), and every error is the violated rule with the (message, field) path appended innermost-first.',
+        note='Assumes the extraction rules (string literals become opaque tags; `?` error conversions made explicit), Verus+Z3, the key models of the id newtypes, std helper contracts (iterator collect, HashMap iteration order universally quantified), and ASSUMED used-id leaves for Quadratic/Polynomial. KNOWN FINDING D7 (listed in known_findings.txt): TryFrom<v1::Instance> does not check that used variable ids are defined. Defect D3 (unset bound became [0,0]) was found by this check and repaired in /repo.',
+        technique='contract-based deductive verification (Verus) of mechanically extracted Rust functions; trait-level ghost contract functions (p_ok/p_out/p_err) with a generically verified default method',
+        ref='DESIGN 6 C08'),
 }
 NA = {
     'C06': 'evaluate_samples is built from FnMut closures capturing &mut state and iterator adapters over HashMap<OrderedFloat,..>: rejected by Verus, far beyond measured Kani limits; leaf lookups alone do not decide the property (DESIGN 6 C06)',
